@@ -50,6 +50,7 @@ Lemma wire_inv : forall P now a r p sp,
     r_count r = to_scalar (dflt ANone (s_count a)) /\
     r_wkst r = Some SU /\
     r_cache r = to_scalar (dflt (ABool false) (s_cache a)) /\
+    truthy (dflt (AInt 1) (s_interval a)) = true /\
     special_part P (r_dtstart r) MExRule MExDate (dflt ANone (s_exclude a)) = Ok ex /\
     special_part P (r_dtstart r) MRRule MRDate (dflt ANone (s_include a)) = Ok inc /\
     sp = ex ++ inc.
@@ -60,7 +61,9 @@ Proof.
   bind_inv H st Hst. destruct st as [start p0].
   bind_inv H v1 H1. bind_inv H v2 H2. bind_inv H v3 H3. bind_inv H v4 H4. bind_inv H v5 H5.
   bind_inv H v6 H6. bind_inv H v7 H7. bind_inv H v8 H8. bind_inv H v9 H9.
-  bind_inv H un Hun. bind_inv H fr Hfr. bind_inv H wd Hwd.
+  bind_inv H un Hun. bind_inv H fr Hfr. bind_inv H ci Hci. bind_inv H wd Hwd.
+  assert (Hiv : truthy (dflt (AInt 1) (s_interval a)) = true)
+    by (unfold check_interval in Hci; destruct (truthy (dflt (AInt 1) (s_interval a))); [reflexivity | discriminate]).
   cbv zeta in H.
   bind_inv H exs Hex. bind_inv H incs Hinc.
   inversion H; subst; clear H.
@@ -94,7 +97,7 @@ Theorem wiring_faithful : forall P now a r p sp,
     r_cache r = to_scalar (dflt (ABool false) (s_cache a)).
 Proof.
   intros P now a r p sp H.
-  destruct (wire_inv _ _ _ _ _ _ H) as (fq & ex & inc & ? & ? & ? & ? & ? & ? & ? & ? & ? & ? & ? & ? & ? & ? & ? & ? & ? & ? & ? & ? & ? & ?).
+  destruct (wire_inv _ _ _ _ _ _ H) as (fq & ex & inc & ? & ? & ? & ? & ? & ? & ? & ? & ? & ? & ? & ? & ? & ? & ? & ? & ? & ? & ? & ? & ? & ? & ?).
   exists fq. splits; assumption.
 Qed.
 
@@ -117,7 +120,7 @@ Theorem absent_keyword_absent_in_engine : forall P now a r p sp,
   (s_interval a = None -> r_interval r = SInt 1).
 Proof.
   intros P now a r p sp H.
-  destruct (wire_inv _ _ _ _ _ _ H) as (fq & ex & inc & ? & ? & ? & Ha & Hb & Hc & Hd & He & Hf & Hg & Hh & Hi & Hu & ? & Hw & Hiv & Hct & ? & ? & ? & ? & ?).
+  destruct (wire_inv _ _ _ _ _ _ H) as (fq & ex & inc & ? & ? & ? & Ha & Hb & Hc & Hd & He & Hf & Hg & Hh & Hi & Hu & ? & Hw & Hiv & Hct & ? & ? & ? & ? & ? & ?).
   splits; intro E; rewrite E in *; cbn [dflt] in *.
   all: try (cbn [ints] in *; congruence).
   - unfold weekdays in Hw. cbn [truthy negb] in Hw. congruence.
@@ -143,8 +146,8 @@ Theorem bysecond_restricts_only_seconds : forall P now a v r p sp r' p' sp',
   r' = with_r_bysecond (r_bysecond r') r /\ p' = p /\ sp' = sp.
 Proof.
   intros P now a v r p sp r' p' sp' H H'.
-  destruct (wire_inv _ _ _ _ _ _ H) as (fq & ex & inc & A0 & A1 & A2 & A3 & A4 & A5 & A6 & A7 & A8 & A9 & A10 & A11 & A12 & A13 & A14 & A15 & A16 & A17 & A18 & A19 & A20 & A21).
-  destruct (wire_inv _ _ _ _ _ _ H') as (fq' & ex' & inc' & B0 & B1 & B2 & B3 & B4 & B5 & B6 & B7 & B8 & B9 & B10 & B11 & B12 & B13 & B14 & B15 & B16 & B17 & B18 & B19 & B20 & B21).
+  destruct (wire_inv _ _ _ _ _ _ H) as (fq & ex & inc & A0 & A1 & A2 & A3 & A4 & A5 & A6 & A7 & A8 & A9 & A10 & A11 & A12 & A13 & A14 & A15 & A16 & A17 & A18 & AI & A19 & A20 & A21).
+  destruct (wire_inv _ _ _ _ _ _ H') as (fq' & ex' & inc' & B0 & B1 & B2 & B3 & B4 & B5 & B6 & B7 & B8 & B9 & B10 & B11 & B12 & B13 & B14 & B15 & B16 & B17 & B18 & BI & B19 & B20 & B21).
   unfold with_bysecond in *.
   cbn [s_freq s_start_date s_interval s_count s_until s_bysetpos s_bymonth s_bymonthday s_byyearday
        s_byeaster s_byweekno s_byweekday s_byhour s_byminute s_bysecond s_cache s_exclude s_include s_uuf] in *.
@@ -245,6 +248,17 @@ Proof.
   rewrite Hf in Hfq. inversion Hfq; subst. rewrite Hn in Hnf. discriminate.
 Qed.
 
+(* an interval of 0 / None / "" / False is rejected (the engine would never advance); and a rule
+   that is built always has a truthy interval *)
+Theorem falsy_interval_rejected : forall P now a,
+  truthy (dflt (AInt 1) (s_interval a)) = false -> is_ok (wire P now a) = false.
+Proof.
+  intros P now a Hi.
+  destruct (wire P now a) as [[[r p] sp]|e] eqn:H; [|reflexivity].
+  destruct (wire_inv _ _ _ _ _ _ H) as (fq & ex & inc & ? & ? & ? & ? & ? & ? & ? & ? & ? & ? & ? & ? & ? & ? & ? & ? & ? & ? & ? & Ht & ?).
+  congruence.
+Qed.
+
 (* ------------------------------------------------------------------ include / exclude *)
 
 Section ArgInd.
@@ -320,7 +334,7 @@ Theorem specials_in_wire : forall P now a r p sp,
      else Ok []) = Ok inc.
 Proof.
   intros P now a r p sp H.
-  destruct (wire_inv _ _ _ _ _ _ H) as (fq & ex & inc & ? & ? & ? & ? & ? & ? & ? & ? & ? & ? & ? & ? & ? & ? & ? & ? & ? & ? & ? & Hex & Hinc & Hsp).
+  destruct (wire_inv _ _ _ _ _ _ H) as (fq & ex & inc & ? & ? & ? & ? & ? & ? & ? & ? & ? & ? & ? & ? & ? & ? & ? & ? & ? & ? & ? & ? & Hex & Hinc & Hsp).
   exists ex, inc. unfold special_part in *. rewrite !specials_flatten in *. auto.
 Qed.
 
